@@ -34,3 +34,28 @@ package hash
 //@ + invariant[padded-block] len(p) - n < bs ==> forall(j, 0, bs - (len(p) - n), callarg2[j] == 0) && forall(j, 0, len(p) - n, callarg2[bs - (len(p) - n) + j] == p[n + j])
 //@ modifies h.state
 //@ end
+
+// Sum, State, SetState and the constructor (hash.Hash / StateStorer): a digest handed out is a copy - Sum appends
+// the current state to its argument and leaves the hasher unchanged, State returns a copy of the state - and a
+// slice handed in is copied, never kept: no later write through a slice that the caller holds can change the
+// hasher, and calling Sum again returns the same digest.
+
+//@ func merkleDamgardHasher.Sum
+//@ option nomerge
+//@ ensures[appends] len(result) == len(b) + len(old(h.state)) && forall(j, 0, len(b), result[j] == old(b[j])) && forall(j, 0, len(old(h.state)), result[len(b) + j] == old(h.state[j]))
+//@ ensures[state-kept] same(h.state, old(h.state)) && forall(j, 0, len(h.state), h.state[j] == old(h.state[j]))
+//@ ensures[own-result] !same(result, h.state)
+//@ modifies nothing
+//@ end
+
+//@ func merkleDamgardHasher.State
+//@ option nomerge
+//@ ensures[copy] fresh(result) && len(result) == len(h.state) && forall(j, 0, len(h.state), result[j] == h.state[j])
+//@ modifies nothing
+//@ end
+
+//@ func merkleDamgardHasher.SetState
+//@ option nomerge
+//@ ensures[copied] isnil(result) && noescape(state) && len(h.state) == len(state) && forall(j, 0, len(state), h.state[j] == state[j])
+//@ modifies h.state
+//@ end
